@@ -3,7 +3,7 @@ CONSTANTS
   Owner = {"A", "B", "C"}
   Prio = {5, 7, 8, 10, 12}
   PrioOf <- GenPrioOf
-  Leaf <- GenCoreLeaf
+  Leaf <- GenValidLeaf
   MaxUpd = 3
   MaxIntents = 2
   TxnId = {"t1", "t2"}
@@ -11,8 +11,8 @@ CONSTANTS
   FailKinds = {"none"}
   TmoKinds = {"short"}
   Disabled = {}
-  UseBad = FALSE
+  UseBad = TRUE
   WithLifecycle = TRUE
-  InitDevice <- GenCoreInit
+  InitDevice <- GenValidInit
 INVARIANT Emit
 CHECK_DEADLOCK FALSE
